@@ -1,4 +1,5 @@
 import BarterModel.Lemmas.BinanceL2
+import BarterModel.Lemmas.KernelsAgree.Sequencer
 /-!
 # C06 — Binance L2 streams never leave a silently wrong local book
 
@@ -337,6 +338,58 @@ theorem terminate_spec (a : List Out) (e : DataError) (b : List Out) (he : e.isT
     | error e' =>
       simp only [terminated, Bool.or_eq_false_iff] at ha
       simp [terminate, ha.1, ih ha.2]
+
+/-! ## tie to the source by translation -/
+
+/-- **Tie to the source by translation.** The ten sequencer functions the model's
+`Sequencer.{new, isFirstUpdate, validateFirstUpdate, validateNextUpdate, validateSequence}` mirror
+(`impl BinanceSpotOrderBookL2Sequencer` in `spot/l2.rs`, `impl BinanceFuturesUsdOrderBookL2Sequencer`
+in `futures/l2.rs`) are not only hand-written: on every run `tools/rust2lean_sm.py` regenerates
+`BarterModel.Generated.Machines.Binance*Sequencer.*` (state-passing functions, `u64 ↦ Nat`,
+`Result ↦ Except`) from the current source, and for ALL states and updates the model's functions
+are the generated ones read through the record bijections of `Lemmas/KernelsAgree/Sequencer.lean`
+(`toSpot/ofSpot`; `toFut/ofFut` with the model's third field as a passenger; `spotIds/futIds` =
+the `u64` fields of the update; `err` = `InvalidSequence{..}`). A change of one of these functions
+in the source makes this theorem fail to build. -/
+theorem kernels_agree_with_source :
+    (∀ id, Sequencer.new id
+        = KernelsAgree.Sequencer.ofSpot (Generated.Machines.BinanceSpotOrderBookL2Sequencer.new id))
+    ∧ (∀ s : Sequencer, s.isFirstUpdate = (KernelsAgree.Sequencer.toSpot s).is_first_update)
+    ∧ (∀ (s : Sequencer) (u : Update), s.validateFirstUpdate .spot u
+        = KernelsAgree.Sequencer.check
+            ((KernelsAgree.Sequencer.toSpot s).validate_first_update (KernelsAgree.Sequencer.spotIds u)))
+    ∧ (∀ (s : Sequencer) (u : Update), s.validateNextUpdate .spot u
+        = KernelsAgree.Sequencer.check
+            ((KernelsAgree.Sequencer.toSpot s).validate_next_update (KernelsAgree.Sequencer.spotIds u)))
+    ∧ (∀ (s : Sequencer) (u : Update), s.validateSequence .spot u
+        = (KernelsAgree.Sequencer.ofSpot
+              ((KernelsAgree.Sequencer.toSpot s).validate_sequence (KernelsAgree.Sequencer.spotIds u)).1,
+            KernelsAgree.Sequencer.validated u
+              ((KernelsAgree.Sequencer.toSpot s).validate_sequence (KernelsAgree.Sequencer.spotIds u)).2))
+    ∧ (∀ id, Sequencer.new id
+        = KernelsAgree.Sequencer.ofFut (Generated.Machines.BinanceFuturesUsdOrderBookL2Sequencer.new id) id)
+    ∧ (∀ s : Sequencer, s.isFirstUpdate = (KernelsAgree.Sequencer.toFut s).is_first_update)
+    ∧ (∀ (s : Sequencer) (u : Update), s.validateFirstUpdate .futures u
+        = KernelsAgree.Sequencer.check
+            ((KernelsAgree.Sequencer.toFut s).validate_first_update (KernelsAgree.Sequencer.futIds u)))
+    ∧ (∀ (s : Sequencer) (u : Update), s.validateNextUpdate .futures u
+        = KernelsAgree.Sequencer.check
+            ((KernelsAgree.Sequencer.toFut s).validate_next_update (KernelsAgree.Sequencer.futIds u)))
+    ∧ (∀ (s : Sequencer) (u : Update), s.validateSequence .futures u
+        = (KernelsAgree.Sequencer.ofFut
+              ((KernelsAgree.Sequencer.toFut s).validate_sequence (KernelsAgree.Sequencer.futIds u)).1
+              s.prevLastUpdateId,
+            KernelsAgree.Sequencer.validated u
+              ((KernelsAgree.Sequencer.toFut s).validate_sequence (KernelsAgree.Sequencer.futIds u)).2)) :=
+  KernelsAgree.Sequencer.sequencer_kernels_agree
+
+/-- non-vacuity of the tie: the generated spot sequencer, started at snapshot id 1, admits `U=1,u=2`
+and then refuses `U=4` with the two payload fields of `InvalidSequence`. -/
+example :
+    ((Generated.Machines.BinanceSpotOrderBookL2Sequencer.new 1).validate_sequence ⟨1, 2⟩)
+      = (⟨1, 2, 1⟩, .ok (some ⟨1, 2⟩))
+    ∧ (((Generated.Machines.BinanceSpotOrderBookL2Sequencer.new 1).validate_sequence ⟨1, 2⟩).1.validate_sequence
+        ⟨4, 5⟩).2 = .error (.InvalidSequence 2 4) := ⟨rfl, rfl⟩
 
 /-! ## non-vacuity: a concrete venue, snapshot and deliveries -/
 
